@@ -15,13 +15,13 @@ mro full H SUB EXT OWN DOC EMPTY ->  per class 1..n-1 not in EXT:
                             <_mro>:<number of 'mro' reports>:<find('m') owner or ->:<doc source, - (none) or x (class has no m)>
 mro pyfull H SUB EXT OWN DOC EMPTY ->  per class 1..n-1: <__mro__ or reject>:<lookup owner or ->:<doc source, - (none) or x (class has no m)>:<inspect.getdoc source>
 ```
-mro uses H SUB EXT STD CONT FUNC HID ORDER PH -> per class not in EXT, fields joined by `:`:
+mro uses H SUB EXT STD CONT FUNC HID ORDER PH PV -> per class not in EXT, fields joined by `:`:
                             mro(False,True) : mro(True,False) : mro(False,False) : mro(True) while _mro is None :
                             mro(include_self=False) while _mro is None : is_exception : _find_dunder_constructor
                             (owner.name, names 0=m 1=__new__ 2=__init__) : overrides(m) : overriding_subclasses(m) :
                             inherited_members (owner.name,…).  STD = external ids named in _STD_LIB_EXCEPTIONS, CONT/FUNC =
                             per class names in contents / names that are Functions, HID = hidden classes, PH = classes whose member 0 is a hidden phantom
-                            Attribute made from a docstring `@type` field (in CONT, not visible), ORDER = the
+                            Attribute made from a docstring `@type` field (in CONT, not visible), PV = names that are class-private (`__x`), FUNC also carries `name+100` for a member that has a docstring, ORDER = the
                             order in which defaultPostProcess visits the classes
 mro earlyfind H EXT OWN -> per class not in EXT: <owner Class.find gives during the visit (_mro is None)>:<owner after post-processing>
 mro second SC RAW INIT EXP RES TRIG -> `_finalbaseobjects` per class (N = not set; 0 = None, k+1 = class k) after
@@ -81,7 +81,7 @@ def handle (args : List String) : String :=
       "|".intercalate (((classesOf hs).filter (fun c => !ext c)).map fun c =>
         let r := initMro bases ext c
         Proto.showNatList r.1 ++ ":" ++ toString r.2.length ++ ":" ++ showOpt (find bases ext owns c 0)
-          ++ ":" ++ (if owns c 0 then showOpt (getDocstring bases ext owns hasDoc c 0) else "x"))
+          ++ ":" ++ (if owns c 0 then showOpt (getDocstring bases ext (fun _ => false) owns hasDoc c 0) else "x"))
     | _, _, _, _, _ => "bad-op"
   | ["pyfull", h, sb, e, o, d, em] =>
     match parseLists h, parseLists sb, Proto.natList e, Proto.natList o, Proto.natList d, Proto.natList em with
@@ -100,10 +100,11 @@ def handle (args : List String) : String :=
                | none => "-")
             else "x"))
     | _, _, _, _, _, _ => "bad-op"
-  | ["uses", h, sb, e, st, ct, fn, hd, od, ph] =>
+  | ["uses", h, sb, e, st, ct, fn, hd, od, ph, pv] =>
     match parseLists h, parseLists sb, Proto.natList e, Proto.natList st, parseLists ct, parseLists fn,
-        Proto.natList hd, Proto.natList od, Proto.natList ph with
-    | some hs, some sbs, some es, some sts, some cts, some fns, some hds, some ods, some phs =>
+        Proto.natList hd, Proto.natList od, Proto.natList ph, Proto.natList pv with
+    | some hs, some sbs, some es, some sts, some cts, some fns, some hds, some ods, some phs, some pvs =>
+      let priv := fun n => pvs.contains n
       let ext := fun c => es.contains c
       let std := fun c => sts.contains c
       let bases := fun c => localBases ext (rawOf hs sbs c)
@@ -124,10 +125,14 @@ def handle (args : List String) : String :=
           Proto.showNatList (classMroEarly rawIds ext c false),
           (if isException bases ext std c then "1" else "0"),
           (match findDunderConstructor bases ext owns isFunc c 1 2 with | some p => pair p | none => "-"),
-          showOpt (overrides bases ext owns c 0),
+          showOpt (overrides bases ext priv owns c 0),
           Proto.showNatList (overridingSubclasses rawIds ods owns visC c 0),
-          pairs (inheritedMembers contents visM (classMro bases ext c))])
-    | _, _, _, _, _, _, _, _, _ => "bad-op"
+          pairs (inheritedMembers contents visM priv (classMro bases ext c)),
+          -- the class-private member 3 (`__p`): what get_override_info shows for it, and its docstring source
+          (if owns c 3 then showOpt (overrides bases ext priv owns c 3) ++ ";" ++
+             Proto.showNatList (overriddenIn rawIds ods owns visC priv c 3) ++ ";" ++
+             showOpt (getDocstring bases ext priv owns (fun k n => (fns.getD k []).contains (n + 100)) c 3) else "x")])
+    | _, _, _, _, _, _, _, _, _, _ => "bad-op"
   | ["earlyfind", h, e, o] =>
     match parseLists h, Proto.natList e, Proto.natList o with
     | some hs, some es, some os =>
